@@ -106,7 +106,7 @@ def leanchecker(mods):
 
 # theorem files that serve several properties: the correctness of the (transcribed) noncontiguous
 # compiler turns Tie A's per-instance validation of that automaton into a theorem for all pattern lists
-EXTRA_THEOREMS = {"C01": ["L1c.lean"], "C02": ["L1c.lean"], "C03": ["L1c.lean"], "C19": ["L1c.lean", "L1e.lean"],
+EXTRA_THEOREMS = {"C01": ["L1c.lean", "L1cDense.lean"], "C02": ["L1c.lean", "L1cDense.lean"], "C03": ["L1c.lean"], "C19": ["L1c.lean", "L1e.lean"],
                   "C04": ["L1d.lean", "L1e.lean"], "C11": ["L1cFold.lean"], "C16": ["L1d.lean", "L1e.lean"],
                   "C15": ["C06.lean"]}
 
